@@ -20,8 +20,11 @@ def src(name, d, compname="c1"):
         after = blk == "a" and d.get("sa")
         # (in every other template the block first calls ANOTHER function: which call is super() must not depend on its position)
         pre = "{% set r_ = range(end=1) %}" if name[-1:] in ("B", "D") else ""
-        if d[blk] == "super" and not after:
+        deep = blk == "b" and d.get("deep")
+        if d[blk] == "super" and not after and not deep:
             s += pre + "{{ super() }}"
+        if deep:                      # a third level of nesting, and super() only after it
+            s += "{% block c %}c" + name + ("[" if d.get("v2") else "(") + "){% endblock %}" + pre + "{{ super() }}"
         if blk == "a" and d["nest"] and d["b"] != "none":
             inner = block("b")
             s += ("{% filter safe %}" + inner + "{% endfilter %}") if d["cap"] else inner
